@@ -129,9 +129,9 @@ theorem sizeLoop_le (maxW maxH : UInt16) (lines : List (List Cell)) (w h : UInt1
 
 /-! ### drawing text never panics (exact arithmetic) and keeps the size -/
 
-theorem drawLine_ok (m : TextMode) (maxW row : UInt16) (line : List Cell) (col : UInt16) (s : Surface)
+theorem drawLine_ok (m : TextMode) (maxW row : UInt16) (tw : Bool) (line : List Cell) (col : UInt16) (s : Surface)
     (hs : Sized s) :
-    ∃ s', drawLine exact m maxW row line col s = .ok s' ∧ s'.w = s.w ∧ s'.h = s.h ∧ s'.kids = s.kids ∧ Sized s' := by
+    ∃ s', drawLine exact m maxW row tw line col s = .ok s' ∧ s'.w = s.w ∧ s'.h = s.h ∧ s'.kids = s.kids ∧ Sized s' := by
   induction line generalizing col s with
   | nil => exact ⟨s, rfl, rfl, rfl, rfl, hs⟩
   | cons ch rest ih =>
@@ -154,7 +154,7 @@ theorem drawLines_ok (m : TextMode) (maxW maxH : UInt16) (lines : List (List Cel
     simp only [drawLines]
     split
     · exact ⟨s, rfl, rfl, rfl, rfl, hs⟩
-    · obtain ⟨s1, h1, hw1, hh1, hk1, hs1⟩ := drawLine_ok m maxW row line 0 s hs
+    · obtain ⟨s1, h1, hw1, hh1, hk1, hs1⟩ := drawLine_ok m maxW row (tooWide maxW line) line 0 s hs
       simp only [h1]
       obtain ⟨s2, h2, hw2, hh2, hk2, hs2⟩ := ih (row + 1) s1 hs1
       exact ⟨s2, h2, hw2.trans hw1, hh2.trans hh1, hk2.trans hk1, hs2⟩
